@@ -175,13 +175,26 @@ type c03iSB struct {
 	pending []c03iAdd
 	nextIf  uint32
 	ifSlot  map[uint32]string
+	// forced overlap: when armed, the next AddIPoESessionAsync signals reached and waits for gate, i.e. the handler
+	// that called it (handleAAAResponse -> setupSession) is held in the middle of its work
+	armed   bool
+	reached chan struct{}
+	gate    chan struct{}
 }
 
 func (s *c03iSB) AddIPoESessionAsync(clientMAC net.HardwareAddr, localMAC net.HardwareAddr, encapIfIndex uint32, outerVLAN uint16, innerVLAN uint16, decapVrfID uint32, callback func(uint32, error)) {
 	i, _ := strconv.Atoi(s.h.slotByMAC(clientMAC.String()))
 	who := s.h.curWho(i)
 	s.h.emit(who, "sbadd")
+	s.h.mu.Lock()
 	s.pending = append(s.pending, c03iAdd{who, callback})
+	wait := s.armed
+	s.armed = false
+	s.h.mu.Unlock()
+	if wait {
+		close(s.reached)
+		<-s.gate
+	}
 }
 func (s *c03iSB) DeleteIPoESessionAsync(clientMAC net.HardwareAddr, encapIfIndex uint32, innerVLAN uint16, callback func(error)) {
 	i, _ := strconv.Atoi(s.h.slotByMAC(clientMAC.String()))
@@ -562,7 +575,7 @@ func c03iService(tok string) bool {
 
 // monStep: an answer is addressed to the attempt whose session id it carries; every service output of an attempt
 // needs an accept for it; an address may leave a pool only when some accepted attempt exists.
-func (h *c03iHarness) monStep(ev string, curBefore [3]string, exBefore [3]bool, a4, a6 int) {
+func (h *c03iHarness) monStep(ev string, curBefore [3]string, exBefore [3]bool, a4, a6 int, check bool) {
 	f := strings.Split(ev, ":")
 	if f[0] == "a" && f[2] == "cur" {
 		i, _ := strconv.Atoi(f[1])
@@ -585,6 +598,9 @@ func (h *c03iHarness) monStep(ev string, curBefore [3]string, exBefore [3]bool, 
 				}
 			}
 		}
+	}
+	if !check {
+		return
 	}
 	bad := ""
 	for _, o := range h.out {
@@ -617,7 +633,7 @@ func (h *c03iHarness) monStep(ev string, curBefore [3]string, exBefore [3]bool, 
 // case line: ipoe <pool4> <pool6> <ev> ...
 func c03iRunCase(line string) string {
 	f := strings.Fields(line)
-	if len(f) < 3 || f[0] != "ipoe" {
+	if len(f) < 3 || (f[0] != "ipoe" && f[0] != "ipoec") {
 		return "badcase"
 	}
 	p4, _ := strconv.Atoi(f[1])
@@ -649,8 +665,54 @@ func c03iRunCase(line string) string {
 				}
 			}
 			a4, a6 := c03iAvail(h.reg, "allocators"), c03iAvail(h.reg, "ianaAllocators")
-			h.step(ev)
-			h.monStep(ev, nb, eb, a4, a6)
+			if strings.HasPrefix(ev, "P:") {
+				// P:<e1>&<e2>: e1 is held inside the dataplane add (if it gets there) until e2 has run completely
+				pr := strings.SplitN(ev[2:], "&", 2)
+				h.sb.reached, h.sb.gate = make(chan struct{}), make(chan struct{})
+				h.mu.Lock()
+				h.sb.armed = true
+				h.mu.Unlock()
+				doneA := make(chan interface{}, 1)
+				go func() {
+					defer func() { doneA <- recover() }()
+					h.step(pr[0])
+				}()
+				held := false
+				var pa interface{}
+				finished := false
+				select {
+				case <-h.sb.reached:
+					held = true
+				case pa = <-doneA:
+					finished = true
+				case <-time.After(5 * time.Second):
+					panic("overlap: first handler neither reached the dataplane add nor returned")
+				}
+				// the gate holds at most the first handler: if that one returned without reaching the dataplane add
+				// (reject, unknown session) nothing is held and the second event runs after it
+				h.mu.Lock()
+				h.sb.armed = false
+				h.mu.Unlock()
+				h.step(pr[1])
+				if held {
+					close(h.sb.gate)
+				}
+				if !finished {
+					select {
+					case pa = <-doneA:
+					case <-time.After(5 * time.Second):
+						panic("overlap: first handler did not return after the gate was opened")
+					}
+				}
+				if pa != nil {
+					panic(pa)
+				}
+				h.monStep(pr[0], nb, eb, a4, a6, false)
+				h.monStep(pr[1], nb, eb, a4, a6, true)
+			} else {
+				h.step(ev)
+				h.monStep(ev, nb, eb, a4, a6, true)
+			}
 			o := append([]string(nil), h.out...)
 			sort.Strings(o)
 			// the accept runs the pending v4 and v6 packets in two goroutines: whether the v6 side already sees the
